@@ -3,11 +3,22 @@ use crate::LINE_ENDING;
 use itertools::Itertools;
 
 pub fn to_vice_symbols(table: &SymbolTable<Symbol>) -> String {
-    table
-        .all()
-        .into_iter()
+    let all = table.all();
+
+    // Labels are defined again in every pass. A label that was not defined in the last pass is a leftover of an earlier
+    // pass (e.g. inside a macro scope that got another number since) and does not exist in the final program.
+    let last_pass = all
+        .values()
+        .filter(|(_, symbol)| symbol.ty == SymbolType::Label)
+        .map(|(_, symbol)| symbol.pass_idx)
+        .max()
+        .unwrap_or_default();
+
+    all.into_iter()
         .filter_map(|(path, (_, symbol))| match symbol.ty {
-            SymbolType::Label => Some(format!("al C:{:X} .{}", symbol.data.as_i64(), path)),
+            SymbolType::Label if symbol.pass_idx == last_pass => {
+                Some(format!("al C:{:X} .{}", symbol.data.as_i64(), path))
+            }
             _ => None,
         })
         .sorted()
